@@ -31,7 +31,7 @@ type injector struct {
 	begins  int      // Begin(true) calls since reset
 	commits int
 	hook    func(kind string) // called before every store call (perturbation / gates)
-	keylog  func(kind string, key []byte) // records the key of every get / set / delete / item
+	keylog  func(kind string, key []byte) // records the key of every get / set / delete / item / seek
 }
 
 func (in *injector) reset() {
@@ -163,7 +163,10 @@ type wCursor struct {
 	in    *injector
 }
 
-func (c *wCursor) Seek(key []byte) error { return c.inner.Seek(key) }
+func (c *wCursor) Seek(key []byte) error {
+	c.in.logKey("seek", key)
+	return c.inner.Seek(key)
+}
 func (c *wCursor) Next()                 { c.inner.Next() }
 func (c *wCursor) Valid() bool           { return c.inner.Valid() }
 func (c *wCursor) Close() error          { return c.inner.Close() }
